@@ -45,7 +45,7 @@ CHECKS = {
         rapid("pure", "TestC06", 40000, 4000000, qs=8),
         rapid("pure", "TestC06Alias", 4000, 200000, qs=8, replay="TestC06AliasReplay"),
     ]),
-    "C07": dict(tests=[rapid("e2e", "TestC07", 96, 3200, qs=16, ts=16, timeout=1200, ttimeout=14000)]),
+    "C07": dict(tests=[rapid("e2e", "TestC07", 160, 3200, qs=16, ts=16, timeout=1200, ttimeout=14000)]),
     "C08": dict(tests=[rapid("storeprops", "TestC08", 16000, 1600000, qs=8)]),
     "C09": dict(tests=[rapid("storeprops", "TestC09", 24000, 1600000, qs=8)]),
     "C10": dict(tests=[rapid("storeprops", "TestC10", 4000, 320000, qs=8)]),
